@@ -1,7 +1,7 @@
 (* C09: streaming is transparent -- results independent of I/O fragmentation and faults. *)
 From Coq Require Import List NArith Lia Bool.
 From Rpgp Require Import Base.Octets Base.Res Sym.Cfb Sym.Seipd1Machine Sym.Seipd1MachineProofs Frame.Framing Frame.BodyReader Frame.BodyReaderProofs Aead.Seipd2 Aead.Seipd2Machine Aead.Seipd2MachineProofs Io.Emitter Io.EmitterProofs Sym.Seipd1EncMachine Sym.Seipd1EncMachineProofs.
-From Rpgp Require Import Io.Reassemble Io.ReassembleProofs Io.Fill Io.FillProofs Armor.Base64 Armor.LineWriter Armor.LineWriterProofs Armor.B64Reader Armor.B64ReaderProofs.
+From Rpgp Require Import Io.CrLfCheck Io.CrLfCheckProofs Io.Reassemble Io.ReassembleProofs Io.Fill Io.FillProofs Armor.Base64 Armor.LineWriter Armor.LineWriterProofs Armor.B64Reader Armor.B64ReaderProofs.
 Import ListNotations.
 Open Scope N_scope.
 
@@ -136,3 +136,23 @@ Theorem C09_reassembly_contract_needed :
   rfb bytes (line_parser 1) 100 [[x61; LF]; [x62]; [x63]] = RVal [x61] [[x62]; [x63]].
 Proof. exact late_parser_is_cut_dependent. Qed.
 Print Assumptions C09_reassembly_contract_needed.
+
+(* the line-ending check the builder puts over the source of a utf8-mode literal (CrLfCheckReader): each read is the
+   octet-by-octet rule "no LF unless the octet shown before it was a CR", so a run over any cutting of a stream gives the
+   verdict (and the carried flag) of the uncut stream ... *)
+Theorem C09_crlf_check_is_the_rule_for_every_cutting : forall chunks flag,
+  crlf_run flag chunks = if ok_from flag (concat chunks) then Some (flag_after flag (concat chunks)) else None.
+Proof. exact crlf_run_is_rule. Qed.
+Print Assumptions C09_crlf_check_is_the_rule_for_every_cutting.
+
+Theorem C09_crlf_check_cutting_independent : forall flag chunks1 chunks2,
+  concat chunks1 = concat chunks2 -> crlf_run flag chunks1 = crlf_run flag chunks2.
+Proof. exact crlf_run_cutting_independent. Qed.
+Print Assumptions C09_crlf_check_cutting_independent.
+
+(* ... and the flag has to be rewritten by every read: a reader that only ever sets it accepts in three reads what it
+   refuses in one *)
+Theorem C09_crlf_check_stale_flag_refuted :
+  exists chunks1 chunks2, concat chunks1 = concat chunks2 /\ stale_run false chunks1 <> stale_run false chunks2.
+Proof. exact stale_reader_is_cut_dependent. Qed.
+Print Assumptions C09_crlf_check_stale_flag_refuted.
